@@ -124,7 +124,7 @@ impl Out {
     }
 }
 
-fn post_names(font: &FontRef, n: u32) -> Vec<String> {
+pub fn post_names(font: &FontRef, n: u32) -> Vec<String> {
     let mut out = vec![];
     if let Ok(post) = font.post() {
         for g in 0..n {
